@@ -52,6 +52,15 @@ PROPS = {
         assumptions=["ots_sign / ots_verify / Hm replaced by havoc stubs (kani::stub): the Winternitz chain arithmetic and 'own signatures verify' are not decided by the deductive check (see stand-in sweep cases lms_*)",
                      "'rejects any other message' is a collision-resistance statement about the hash, not a theorem of the code: not claimed"],
     ),
+    "C17": dict(
+        title="Hash functions match their standards for every input and call pattern",
+        verus=[("sha2_update", None, "quick")],
+        kani=[],
+        cases=[],
+        explanation="SHA-2 family: update() of both block sizes is proved (Verus, loop invariant, any number of calls, any chunk lengths) to extend the absorbed byte string: view(final) == view(old) ++ src, where view relates (h, buf, ctr) to the message through an abstract compression function. Padding/finalisation (to_be_bytes has no Verus spec in this toolchain), the compression functions, SHA-3 and BLAKE2s are covered only by the labelled stand-in sweep against from-the-standard reference implementations.",
+        assumptions=["process() (the compression function) is used through an assumed contract: final.h == compress(old.h, old.buf), buf and ctr unchanged",
+                     "usize is 64 bits (global size_of usize == 8)"],
+    ),
 }
 
 NOT_APPLICABLE = {
